@@ -3,6 +3,7 @@ package main
 import (
 	"fmt"
 	"sort"
+	"sync/atomic"
 
 	"github.com/openacid/slim/trie"
 )
@@ -24,7 +25,40 @@ func (o OptSet) String() string {
 
 // Opt builds the option struct with every pointer set explicitly.
 func (o OptSet) Opt() trie.Opt {
+	pick := func(b bool, on, off *bool) *bool {
+		if b {
+			return on
+		}
+		return off
+	}
+	switch atomic.LoadInt32(&optSpelling) {
+	case 1:
+		// the way an application composes options from two flag objects:
+		// on, off := trie.Bool(true), trie.Bool(false) - every field of one Opt
+		// points at one of the two
+		t, f := true, false
+		return trie.Opt{DedupValue: pick(o.D, &t, &f), InnerPrefix: pick(o.I, &t, &f), LeafPrefix: pick(o.L, &t, &f), Complete: pick(o.C, &t, &f)}
+	case 2:
+		// ... and keeps the two flag objects for all the tries it builds (here:
+		// all builds of one case)
+		on, off := caseFlagOn, caseFlagOff
+		if on != nil && off != nil {
+			return trie.Opt{DedupValue: pick(o.D, on, off), InnerPrefix: pick(o.I, on, off), LeafPrefix: pick(o.L, on, off), Complete: pick(o.C, on, off)}
+		}
+	}
 	return trie.Opt{DedupValue: trie.Bool(o.D), InnerPrefix: trie.Bool(o.I), LeafPrefix: trie.Bool(o.L), Complete: trie.Bool(o.C)}
+}
+
+// optSpelling selects how OptSet.Opt spells an option set; the worker loop
+// sets it per case (case index mod 3), so that a replay of the case spells the
+// options the same way. The behaviour of correct code does not depend on it.
+var optSpelling int32
+var caseFlagOn, caseFlagOff *bool
+
+func setOptSpelling(caseIdx int) {
+	t, f := true, false
+	caseFlagOn, caseFlagOff = &t, &f
+	atomic.StoreInt32(&optSpelling, int32(caseIdx%3))
 }
 
 // Normalised behaviour, as the documentation states it: Complete implies both
